@@ -26,6 +26,26 @@ NA = {
 PENDING = {}
 
 CHECKS = [
+    dict(pid="C03", level="model_checking",
+         text="SEQUENTIAL compare-and-swap step, from MIR with the file system as an effect recorder: for ONE Put or Delete from an arbitrary state (any names, any expected / current / claimed hash, every operation may fail) the solver shows that the live path is renamed over / removed only if the hash read equals the client's expected hash, that this read, the compare (the real cas_decide) and the rename/remove all lie inside ONE exclusive-lock section on <root>/.copia/commit.lock, that a stale expected hash sends the verified bytes to `<path>.conflict-<short hash>` and touches nothing else, that at most one rename/remove is requested, and that the reply reports exactly the decision taken (committed/deleted flag, current hash). Counterexamples are confirmed against the real handlers (scenario family vs a sequential reference) and, for ORDER goals, against the real system-call order observed with strace.",
+         ref="DESIGN.md §12 hub",
+         note="NOT explored: interleavings of several server processes. Linearizability is ARGUED from the decided shape (read-compare-write in one flock critical section + exact CAS gate) and the kernel's flock exclusion; it is not decided. Crash points, the hub_sync client and the serve() dispatch loop are outside the claim. Trusted: MIR dump, encoder, the effect-recorder abstraction (validated each run: the real handlers conform to the sequential reference on ~300 scenarios, dev+release).",
+         technique="SMT over MIR (symbolic execution of the real handlers; file system = recorded effects with arbitrary outcomes; uninterpreted path constructors); native replay + strace system-call order"),
+    dict(pid="C10", level="model_checking",
+         text="SEQUENTIAL publish discipline of ONE Put / Get, from MIR with the file system as an effect recorder, BLAKE3 as 32 uninterpreted functions of the stream and a content stream of 0..3 (quick) / 0..5 (thorough) symbolic bytes delivered in arbitrary pieces: content is written only to the staging sibling; the bytes written are the streamed bytes in order; a rename happens only after every byte was written successfully, the staging file was synced, the stream delivered exactly the declared length and the hash of exactly those bytes equals the declared hash; on a mismatch the staging file is removed, an error is replied and nothing else is touched; nothing but the staging file is ever removed; exactly min(len, available) content bytes are consumed. Get announces the length and hash it read, streams only after that header, and only reads.",
+         ref="DESIGN.md §12 hub",
+         note="NOT explored: interleavings and crash points (atomicity of rename(2), durability after fsync are the kernel's); Get's three separate reads are not atomic and a concurrent writer is outside the claim. Found and fixed: a stream shorter than its declared length was committed when its hash matched (known_findings.json, 62888f3).",
+         technique="SMT over MIR (effect trace of the real handler, uninterpreted hash functions, short-read stream model); native replay + strace system-call order"),
+    dict(pid="C11", level="model_checking",
+         text="(1) safe_join (from MIR) refuses exactly the strings that are absolute or contain a `..` component and otherwise returns root.join(the same string), for every string of length <= 5 (quick) / 7 (thorough) over {a . /}. (2) For ONE Put / Delete / Get with safe_join's verdict arbitrary: a refused path causes no file-system request at all, an Error reply, and (Put) exactly the declared content bytes are drained so the connection stays in step; for an accepted path every file-system request is on join(root, path), its `.copia-tmp` / `.conflict-` sibling, its parent directory or the lock file.",
+         ref="DESIGN.md §12 hub",
+         note="std::path (is_absolute, components) is a CONTRACT MODEL of its Unix semantics, validated every run against the native implementation through the real safe_join on 131 strings; it is not decided. Containment is lexical: symlinks inside the served tree, and what the kernel resolves, are outside the claim. Sequential, one request.",
+         technique="SMT over MIR (bounded strings, loop unrolling with unwinding assertion; effect trace of the handlers); native replay"),
+    dict(pid="C12", level="model_checking",
+         text="Framing layer from MIR: read_frame on ANY wire input (length up to 2^40, all 2^32 prefixes) never panics, never requests an allocation above 1 MiB, rejects an oversize prefix before allocating, returns None at a clean end of input, returns a message only for a complete frame decoded from exactly its payload and leaves the stream at the next frame even when decoding fails; read_magic is true exactly for `COPIA1`; write_frame writes a big-endian length and exactly the encoding iff it is <= 1 MiB. handle_put consumes exactly min(len, available) content bytes on every non-error path, including a refused path.",
+         ref="DESIGN.md §12 hub",
+         note="ciborium is NOT modelled (from_reader = arbitrary function of exactly the slice it is given; into_writer = arbitrary bytes or error), so totality of the CBOR decoder itself is not covered. NOT covered: the serve() loop (nothing changes before a valid prologue, exit status, no spinning after EOF), memory used by List replies.",
+         technique="SMT over MIR (framing and allocation requests over all inputs; contract summaries for the CBOR codec); native replay with an allocation-tracking oracle"),
     dict(pid="C17", level="proof",
          text="Every public operation of both rolling-checksum types (new, empty, roll, push, digest, len, sum_a, sum_b) is executed symbolically from the compiler's MIR and shown by SMT (z3, re-decided by cvc5/z3 4.8.12) to preserve a representation invariant tying the state to the exact sums of the window, for every window length 1..65536 and all byte values at full machine width; `new`'s loop is handled by additive loop acceleration plus an unrolled cross-check. One inductive step per operation covers operation sequences of any length, which no finite test reaches.",
          ref="DESIGN.md §4 C17",
@@ -101,7 +121,7 @@ def build():
             "add_only": True,
         },
         "engines": [
-            {"name": "mirsmt", "path": "/verif/mirsmt", "serves_properties": ["C01", "C14", "C15", "C16", "C17", "C18", "C19"],
+            {"name": "mirsmt", "path": "/verif/mirsmt", "serves_properties": ["C01", "C03", "C05", "C10", "C11", "C12", "C14", "C15", "C16", "C17", "C18", "C19", "C20"],
              "kind_free_text": "own symbolic executor over nightly rustc MIR text -> z3 terms (Int encoding with explicit wrap); z3 decides, cvc5 / z3 4.8.12 re-decide the exported SMT-LIB2"},
             {"name": "kani", "path": "/verif/kani-lib, /verif/kani-bin", "serves_properties": ["C01", "C05", "C18", "C19", "C20"],
              "kind_free_text": "Kani 0.68 / CBMC 6.11 proof harnesses in out-of-tree crates over the real code (path dependency; environment shims for blake3, rayon, rustc-hash)"},
